@@ -1232,3 +1232,7 @@ v("c05-polars-trimstr-raw-slice", "C05", PM, "        \"trimstr\": lambda a, b, 
 v("c05-polars-trimstr-right-slice-twin", "C05", PM, "        \"trimstr\": lambda a, b, c: a.trimstr(b, c),\n", "        \"trimstr\": lambda a, b, c: a.str.slice(b, c - b),\n", expect="silent")
 v("c26-partition-one-flag-dropped", "C26", VR, "            partition_by = []\n            windowed_situation = True\n", "            partition_by = []\n")
 v("c15-locf-names-not-compared-with-all-columns", "C15", SOL, "        locf_tiebreaker_column_name,\n    ] + list(d.column_names)\n", "        locf_tiebreaker_column_name,\n    ] + list(order_by)\n")
+
+# rules written after the tenth seeding round
+v("c16-on-parser-dict", "C16", VR, "    return on_a, on_b\n\n\ndef _convert_parallel_lists_to_on_clause", "    pairs_ = dict()\n    for k_, v_ in zip(on_a, on_b):\n        pairs_[k_] = v_\n    return list(pairs_.keys()), list(pairs_.values())\n\n\ndef _convert_parallel_lists_to_on_clause")
+v("c09-project-shortcut-unguarded", "C09", VR, "        return ProjectNode(source=self, parsed_ops=parsed_ops, group_by=group_by)\n", "        if (len(parsed_ops) < 1) and isinstance(self, ProjectNode):\n            return self.select_columns(group_by)\n        return ProjectNode(source=self, parsed_ops=parsed_ops, group_by=group_by)\n")
